@@ -68,7 +68,16 @@ def systematic_schemas():
             out.append({"core": [], "extra": [("v", p)], "build": []})
         else:
             out.append({"core": [("v", p)], "extra": [], "build": []})
-    for pat in zgen.TS_PATTERNS + ["YYYYMM", "%Y", "bogus", "", "yyyy", "YY", "0W", "WW", "HH", "0H", "mm", "0m", "SS", "0S", "YYYY0M0D", "YYYY0M0D0H0m0S", "YYYY-MM"]:
+    # the valid names, their neighbours, and every proper substring / join / case variant of a valid name (a lookup that is not an exact
+    # match of the whole name - prefix, substring, case-insensitive - accepts one of these)
+    near = set()
+    for v in zgen.TS_PATTERNS:
+        for i in range(len(v)):
+            for j in range(i + 1, len(v) + 1):
+                near.add(v[i:j])
+        near.update([v.lower(), v.upper(), v + " ", " " + v, v + v[-1], v + ", " + zgen.TS_PATTERNS[0], v + "," + v])
+    near -= set(zgen.TS_PATTERNS)
+    for pat in zgen.TS_PATTERNS + ["YYYYMM", "%Y", "bogus", "", "yyyy", "YY", "0W", "WW", "HH", "0H", "mm", "0m", "SS", "0S", "YYYY0M0D", "YYYY0M0D0H0m0S", "YYYY-MM"] + sorted(near):
         for part in ("core", "extra", "build"):
             s = {"core": [], "extra": [], "build": []}
             s[part] = [("t", pat)]
